@@ -588,7 +588,13 @@ func (f *cntFS) Lstat(r *sftp.Request) (sftp.ListerAt, error) {
 func (f *cntFS) Filecmd(r *sftp.Request) error {
 	f.mu.Lock()
 	defer f.mu.Unlock()
-	f.logf("Filecmd %s %s %s fl=%d attrs=%x", r.Method, r.Filepath, r.Target, r.Flags, r.Attrs)
+	if r.Method == "Setstat" {
+		// what a handler is SHOWN of a SETSTAT / FSETSTAT: the flags and the attributes they select (the raw
+		// block may carry tolerated trailing bytes of the frame, which mean nothing)
+		f.logf("Filecmd %s %s %s fl=%d attrs=%s", r.Method, r.Filepath, r.Target, r.Flags, cntAttrText(r))
+	} else {
+		f.logf("Filecmd %s %s %s fl=%d attrs=%x", r.Method, r.Filepath, r.Target, r.Flags, r.Attrs)
+	}
 	if strings.Contains(r.Filepath, "err") {
 		return errCntHandler
 	}
@@ -681,6 +687,41 @@ func (f *cntFS) Filecmd(r *sftp.Request) error {
 		return nil
 	}
 	return fmt.Errorf("unexpected command %q", r.Method)
+}
+
+// cntAttrText renders the attributes a Setstat request shows its handler, as selected by its flags.
+func cntAttrText(r *sftp.Request) string {
+	a := r.Attributes()
+	if a == nil {
+		return fmt.Sprintf("undecodable:%x", r.Attrs)
+	}
+	var ext [][2]string
+	for _, e := range a.Extended {
+		ext = append(ext, [2]string{e.ExtType, e.ExtData})
+	}
+	fl := r.AttrFlags()
+	return ssAttrText(fl.Size, fl.UidGid, fl.Permissions, fl.Acmodtime, r.Flags&wire.AExt != 0, a.Size, a.UID, a.GID, a.Mode, a.Atime, a.Mtime, ext)
+}
+
+// ssAttrText is the canonical text of an attribute selection (handler side and judge side use the same).
+func ssAttrText(size, ids, perm, times, hasExt bool, sz uint64, uid, gid, mode, atime, mtime uint32, ext [][2]string) string {
+	var p []string
+	if size {
+		p = append(p, fmt.Sprintf("size=%d", sz))
+	}
+	if ids {
+		p = append(p, fmt.Sprintf("uid=%d,gid=%d", uid, gid))
+	}
+	if perm {
+		p = append(p, fmt.Sprintf("mode=%o", mode))
+	}
+	if times {
+		p = append(p, fmt.Sprintf("atime=%d,mtime=%d", atime, mtime))
+	}
+	if hasExt {
+		p = append(p, fmt.Sprintf("ext=%q", ext))
+	}
+	return "{" + strings.Join(p, ",") + "}"
 }
 
 func (f *cntFS) move(from, to string) error {
@@ -1216,13 +1257,20 @@ type ssReq struct {
 	Handle    string
 	HasHandle bool
 	Pf        uint32
-	RdLen     uint32    // READ: the length asked for
-	WrLen     int       // WRITE: the number of data bytes
-	Soft      bool      // attribute block shorter than its flags promise (framing intact)
-	Off, Len  int       // position of the frame in the stream
-	StrOffs   []int     // offsets inside the frame of every string-length field
-	StrLens   []int     // … and the values of those fields
-	Fields    []ssField // every integer field of the frame body (id, string lengths, offsets, flags, attribute words, counts)
+	RdLen     uint32 // READ: the length asked for
+	WrLen     int    // WRITE: the number of data bytes
+	Soft      bool   // attribute block shorter than its flags promise (framing intact)
+	// what the frame MEANS, field by field, each string exactly as long as its length word says
+	Path     string    // the (first) path of a path request
+	Paths    []string  // every path string of the request (both of RENAME / SYMLINK / posix-rename / hardlink)
+	WrOff    uint64    // WRITE / READ: the offset
+	Data     []byte    // WRITE: exactly data-length bytes
+	At       wire.St   // OPEN / SETSTAT / FSETSTAT: the attribute block as its flags word defines it
+	Slack    int       // bytes of the frame after the last field of the request (tolerated, and to be IGNORED)
+	Off, Len int       // position of the frame in the stream
+	StrOffs  []int     // offsets inside the frame of every string-length field
+	StrLens  []int     // … and the values of those fields
+	Fields   []ssField // every integer field of the frame body (id, string lengths, offsets, flags, attribute words, counts)
 }
 
 // ssField is one integer field of a request frame as the judge read it: where it sits in the
@@ -1238,12 +1286,14 @@ type ssField struct {
 }
 
 type ssCur struct {
-	b    []byte
-	pos  int
-	bad  bool
-	strs []int
-	lens []int
-	flds []ssField
+	b     []byte
+	pos   int
+	bad   bool
+	strs  []int
+	lens  []int
+	flds  []ssField
+	at    wire.St
+	paths []string
 }
 
 func (c *ssCur) u32() uint32 {
@@ -1279,6 +1329,9 @@ func (c *ssCur) fstr(name string) string {
 	s := c.str()
 	if len(c.strs) > n {
 		c.flds = append(c.flds, ssField{Off: at + 5, W: 4, Name: name + "-len", Val: uint64(len(s)), Str: true})
+		if name == "path" || name == "path2" {
+			c.paths = append(c.paths, s)
+		}
 	}
 	return s
 }
@@ -1302,26 +1355,30 @@ func (c *ssCur) attrs() (soft bool) {
 	if c.bad {
 		return false
 	}
+	c.at = wire.St{Flags: fl}
 	c.flds[len(c.flds)-1].Flags = true
 	if fl&wire.ASize != 0 {
-		c.f64("attr-size")
+		c.at.Size = c.f64("attr-size")
 	}
 	if fl&wire.AUIDGID != 0 {
-		c.f32("attr-uid")
-		c.f32("attr-gid")
+		c.at.UID = c.f32("attr-uid")
+		c.at.GID = c.f32("attr-gid")
 	}
 	if fl&wire.APerm != 0 {
-		c.f32("attr-perm")
+		c.at.Perm = c.f32("attr-perm")
 	}
 	if fl&wire.ATime != 0 {
-		c.f32("attr-atime")
-		c.f32("attr-mtime")
+		c.at.Atime = c.f32("attr-atime")
+		c.at.Mtime = c.f32("attr-mtime")
 	}
 	if fl&wire.AExt != 0 {
 		n := c.f32("attr-ext-count")
 		for i := uint32(0); i < n && !c.bad; i++ {
-			c.fstr("attr-ext-name")
-			c.fstr("attr-ext-data")
+			k := c.fstr("attr-ext-name")
+			v := c.fstr("attr-ext-data")
+			if !c.bad {
+				c.at.Ext = append(c.at.Ext, [2]string{k, v})
+			}
 		}
 	}
 	if c.bad {
@@ -1343,6 +1400,7 @@ func init() {
 func ssParseReq(typ byte, body []byte) (q ssReq, why string) {
 	c := &ssCur{b: body}
 	q.Typ = typ
+	noSlack := false
 	kind, known := ssTypeKind[typ]
 	if !known {
 		return q, "unknown-type"
@@ -1360,30 +1418,32 @@ func ssParseReq(typ byte, body []byte) (q ssReq, why string) {
 			c.fstr("init-ext-data")
 		}
 	case wire.Open:
-		c.fstr("path")
+		q.Path = c.fstr("path")
 		q.Pf = c.f32("pflags")
 		q.Soft = c.attrs()
 	case wire.Close, wire.Fstat, wire.Readdir:
 		h()
 	case wire.Read:
 		h()
-		c.f64("offset")
+		q.WrOff = c.f64("offset")
 		q.RdLen = c.f32("len")
 	case wire.Write:
 		h()
-		c.f64("offset")
-		q.WrLen = len(c.fstr("data"))
+		q.WrOff = c.f64("offset")
+		q.Data = []byte(c.fstr("data"))
+		q.WrLen = len(q.Data)
 	case wire.Setstat:
-		c.fstr("path")
+		q.Path = c.fstr("path")
 		q.Soft = c.attrs()
 	case wire.Fsetstat:
 		h()
 		q.Soft = c.attrs()
 	case wire.Mkdir:
-		c.fstr("path")
+		q.Path = c.fstr("path")
 		c.f32("attr-flags") // flags word; the rest of the attribute block is documented as ignored
+		noSlack = true
 	case wire.Rename, wire.Symlink:
-		c.fstr("path")
+		q.Path = c.fstr("path")
 		c.fstr("path2")
 	case wire.Extended:
 		name := c.fstr("ext-name")
@@ -1397,12 +1457,17 @@ func ssParseReq(typ byte, body []byte) (q ssReq, why string) {
 			q.Kind = "ext:" + name
 		default:
 			q.Kind = "ext-unknown"
+			noSlack = true // what follows the name belongs to the extension
 		}
 	default:
-		c.fstr("path")
+		q.Path = c.fstr("path")
 	}
 	if c.bad {
 		return q, "short-body"
+	}
+	q.At, q.Paths = c.at, c.paths
+	if !noSlack && typ != wire.Init {
+		q.Slack = len(c.b) - c.pos
 	}
 	q.StrOffs, q.StrLens, q.Fields = c.strs, c.lens, c.flds
 	return q, ""
